@@ -270,12 +270,18 @@ func (repo *Repository) GetVerifyOnlyLocatorHashes(ctx context.Context) ([]bitco
 
 func removeDuplicateHashes(hashes []bitcoin.Hash32) []bitcoin.Hash32 {
 	result := make([]bitcoin.Hash32, 0, len(hashes))
-	var previousHash bitcoin.Hash32
-	for i, hash := range hashes {
-		if i != 0 && previousHash.Equal(&hash) {
-			continue
+	for _, hash := range hashes {
+		isDuplicate := false
+		for _, previousHash := range result {
+			if previousHash.Equal(&hash) {
+				isDuplicate = true
+				break
+			}
 		}
-		result = append(result, hash)
+
+		if !isDuplicate {
+			result = append(result, hash)
+		}
 	}
 
 	return result
